@@ -17,7 +17,8 @@ RULE = ("cases = seeded random models from the public groups (aero point incl. c
         "LinearBlockGS, Krylov with preconditioner) on the coupled group.  Non-trivial = non-zero gradient rows compared in both modes")
 ASSUMPTIONS = ["Richardson central differences of the converged analysis (coupled solver residual 1e-11) with their error bar are the ground truth",
                "a linear solver that reports non-convergence makes only its own comparison undecided"]
-REQUIRED_FAMILIES = ["fwd_rev/aero", "fwd_rev/struct", "fwd_rev/as", "fd/aero", "fd/struct", "fd/as", "solver/lbgs_vs_direct", "solver/krylov_vs_direct"]
+REQUIRED_FAMILIES = ["fwd_rev/aero", "fwd_rev/struct", "fwd_rev/as", "fd/aero", "fd/struct", "fd/as", "solver/lbgs_vs_direct", "solver/krylov_vs_direct",
+                     "fwd_rev/mphys", "fd/mphys"]
 LEVEL_TEXT = ("forward- and reverse-mode totals of real models are computed at successive design points of live problems and compared "
               "with each other, with extrapolated finite differences of the converged analysis and across the supported linear solvers")
 TECHNIQUE = "runtime monitoring: differential oracle (fwd vs rev vs Richardson FD of run_model vs alternative linear solvers) on live problems"
@@ -124,6 +125,8 @@ def cases(tier, seed):
         model = ["aero", "as", "struct", "as", "struct", "multipoint"][k % 6]
         out.append(dict(kind="totals", model=model, seed=int(rng.integers(1 << 30)), solvers=bool(model in ("as", "multipoint") and k % 2 == 1),
                         _cost={"aero": 5, "as": 20, "struct": 6, "multipoint": 40}[model]))
+    for k in range(4 if tier == "quick" else 24):
+        out.append(dict(kind="mphys", seed=int(rng.integers(1 << 30)), nsurf=1 + k % 3, compressible=bool(k % 2), _cost=6))
     return out
 
 
@@ -274,7 +277,64 @@ def run_totals(c, o):
     o.nontrivial = nz > 0
 
 
+def run_mphys(c, o):
+    """matrix-free mesh demultiplexer -> VLM solver group -> force multiplexer + functions group: totals in both modes vs FD"""
+    from mphys.core import MPhysVariables as V
+    from .c19 import mphys_problem, rand_surface
+
+    rng = np.random.default_rng(c["seed"])
+    surfs = [zoo.aero_surface(rand_surface(rng, s_, "full")) for s_ in range(c["nsurf"])]
+    for s_ in surfs:
+        s_["with_viscous"] = True
+    flow = dict(zoo.FLOW_DEFAULT, alpha=float(np.round(rng.uniform(0, 8), 2)), beta=float(np.round(rng.uniform(-5, 5), 2)), v=float(rng.uniform(60, 240)),
+                rho=float(rng.uniform(0.3, 1.2)), Mach_number=float(np.round(rng.uniform(0.3, 0.8), 3)), cg=[0.3, 0.0, 0.1])
+    X, Ld = V.Aerodynamics.Surface.COORDINATES, V.Aerodynamics.Surface.LOADS
+    FC = V.Aerodynamics.FlowConditions
+    of = [Ld, "funcs.CL", "funcs.CD", "funcs.CM"]
+    wrt = [X, FC.ANGLE_OF_ATTACK, FC.MACH_NUMBER, "v"]
+    tags = ["mphys", "nsurf=%d" % c["nsurf"], "compressible" if c["compressible"] else "incompressible"]
+    J = {}
+    probs = {}
+    for mode in ("fwd", "rev"):
+        p = mphys_problem(surfs, flow, c["compressible"], mode=mode)
+        zoo.run(p)
+        J[mode] = totals(p, of, wrt)
+        probs[mode] = p
+    compare_J(o, "fwd_rev/mphys", J["fwd"], J["rev"], of, wrt, 1e-9, tags, "fwd vs rev (MPhys wrappers)")
+    # directional finite differences of the wrapped analysis
+    p = probs["fwd"]
+    x0 = np.array(p.get_val(X)).copy()
+    pt = {X: x0.tolist(), FC.ANGLE_OF_ATTACK: flow["alpha"], "v": flow["v"]}
+    if c["compressible"]:
+        pt[FC.MACH_NUMBER] = flow["Mach_number"]
+    fd, sizes = fd_directional(p, of, pt, list(pt), rng)
+    for (w, d, est, err, spread) in fd:
+        for mode in ("fwd", "rev"):
+            a = jdot(J[mode], of, w, d)
+            r0 = 0
+            for o_, sz in zip(of, sizes):
+                sl = slice(r0, r0 + sz)
+                r0 += sz
+                S = max(np.abs(a[sl]).max(initial=0.0), np.abs(est[sl]).max(initial=0.0))
+                if S == 0:
+                    continue
+                rowS = max(np.abs(jdot(J[mode], of, w2, np.ones(np.array(pt[w2]).size) if np.array(pt[w2]).size > 1 else np.ones(1))[sl]).max(initial=0.0) for w2 in pt)
+                tol = 1e-5 * S + 20 * err[sl] + 1e-7 * rowS
+                ok_fd = err[sl] <= 1e-2 * S
+                diff = np.abs(a[sl] - est[sl])
+                m = float((diff[ok_fd] / tol[ok_fd]).max()) if ok_fd.any() else 0.0
+                o._fam("fd/mphys", m)
+                if m > 1.0:
+                    i = int(np.argmax(np.where(ok_fd, diff / tol, 0)))
+                    o.violate("fd/mphys", "%s total d(%s)/d(%s): reported %.8g, finite differences %.8g +- %.1e" % (mode, o_, w, a[sl][i], est[sl][i], err[sl][i]),
+                              err=float(diff[i]), tol=float(tol[i]), tags=tags + ["mode=" + mode, "of=" + o_.split(".")[-1], "wrt=" + w])
+    o.nontrivial = True
+
+
 def run_case(c):
     o = Obs()
-    run_totals(c, o)
+    if c["kind"] == "mphys":
+        run_mphys(c, o)
+    else:
+        run_totals(c, o)
     return o
